@@ -94,7 +94,7 @@ template <class T> static void plane (Gen<T>& g, int it)
     // plane * matrix
     {
         Matrix44<T> M;
-        int fam = it % 4;      // 0 rigid-ish lattice (signed permutation + translation), 1 integer matrix, 2 S*R*T generic, 3 reflection
+        int fam = it % 5;      // 0 rigid-ish lattice (signed permutation + translation), 1 integer matrix, 2 S*R*T generic, 3 reflection, 4 projective
         if (fam == 0 || fam == 3)
         {
             static const int perm[6][3] = {{0, 1, 2}, {1, 2, 0}, {2, 0, 1}, {0, 2, 1}, {2, 1, 0}, {1, 0, 2}};
@@ -103,10 +103,11 @@ template <class T> static void plane (Gen<T>& g, int it)
             for (int i = 0; i < 3; ++i) M[i][perm[pi][i]] = g.rng.below (2) ? T (1) : T (-1);
             for (int j = 0; j < 3; ++j) M[3][j] = g.smallInt ();
         }
-        else if (fam == 1)
+        else if (fam == 1 || fam == 4)
         {
             do { for (int i = 0; i < 3; ++i) for (int j = 0; j < 3; ++j) M[i][j] = g.smallInt (3); } while (M.determinant () == 0);
             for (int j = 0; j < 3; ++j) M[3][j] = g.smallInt ();
+            if (fam == 4) for (int i = 0; i < 3; ++i) M[i][3] = T (g.rng.range (-1, 1)) / T (128);     // homogeneous weight stays within 1 +- 1/2
         }
         else
         {
